@@ -856,7 +856,10 @@ impl World {
                         .map(|c| self.mature(c, frac))
                         .unwrap_or(false)
                 });
-                let deps_ok = t.tx.cell_deps().into_iter().all(|d| cells.contains_key(&d.out_point()));
+                let deps_ok = t.tx.cell_deps().into_iter().all(|d| cells.contains_key(&d.out_point()))
+                    && t.tx.header_deps().into_iter().all(|h| {
+                        self.by_hash.get(&h).map(|i| pst.chain.get(self.blocks[*i].number as usize) == Some(i)).unwrap_or(false)
+                    });
                 if !ok || !deps_ok {
                     continue;
                 }
